@@ -157,8 +157,10 @@ def mountLevels (script : List Op) (ti rr : Nat) : List Nat → Nat → Option (
   | j :: js, serving =>
     match script[j]? with
     | some (.mount p s seg inherit extra) =>
-      if p ≠ serving then none else do
       let tnext := match js with | [] => ti | j' :: _ => j'
+      -- a mount carries the routes its sub-router has at that moment: the route (or the inner
+      -- mount that brought it) must precede this mount
+      if p ≠ serving || !(decide (tnext < j)) then none else do
       let (pre, ls) ← mountLevels script ti rr js s
       pure (seg :: pre,
             (if inherit then [routerLevel script p j] else []) ++ [routerLevel script s tnext, (extra, [])] ++ ls)
@@ -233,7 +235,15 @@ def opRefsOK (script : List Op) (t : Nat) (op : Op) : Bool :=
    | .aroute (.agroup g) _ _ _ _ => decide (g < cnt isAGroupCreate script t)
    | .aroute (.avgroup vg) _ _ _ _ => decide (vg < cnt isAVGroupCreate script t)
    | .vgroup v _ _ => decide (v < cnt isVRouterCreate script t)
+   -- version trees only on the serving router; a router is mounted into one created earlier
+   | .version r _ => decide (r = 0)
+   | .mount p s _ _ _ => decide (p < s) && decide (s < 1 + cnt isNewRouterOp script t)
    | _ => true)
+
+/-- the path segment of a `Mount` -/
+def mountSegOf : Op → Option Nat
+  | .mount _ _ seg _ _ => some seg
+  | _ => none
 
 /-- well-formed: all references resolve at the time they are made, route segments are pairwise distinct -/
 def wfB (script : List Op) : Bool :=
@@ -243,10 +253,17 @@ def wfB (script : List Op) : Bool :=
     | none => true) &&
   ((List.range script.length).all fun i => (List.range script.length).all fun j =>
     i == j ||
-    (match script[i]?.bind routeSegOf, script[j]?.bind routeSegOf with
-     | some a, some b => a != b
-     | _, _ => true))
+    ((match script[i]?.bind routeSegOf, script[j]?.bind routeSegOf with
+      | some a, some b => a != b
+      | _, _ => true) &&
+     (match script[i]?.bind mountSegOf, script[j]?.bind mountSegOf with
+      | some a, some b => a != b
+      | _, _ => true)))
 
 def noMountB (script : List Op) : Bool := script.all fun op => !isMountOp op
+
+/-- only the serving router is warmed up explicitly (a sub-router warmed up before `Mount` is
+    finding K02b) -/
+def subsColdB (script : List Op) : Bool := script.all fun op => match op with | .warmup r => r == 0 | _ => true
 
 end Rivaas.Compose
